@@ -316,6 +316,15 @@ fn obtain_lazy(src: &Arc<Source>, j: &J, span: &Span, path: &[Step]) -> Result<H
                 if probe && got[2].is_some() && j.get_key("no such key").is_none() {
                     return Err(Violation::new("mismatch/get_many", "get_many found a key that does not exist".to_string()));
                 }
+                // slot 0 is the whole document (the empty path, a prefix of every other path)
+                match &got[0] {
+                    Some(root) => {
+                        if root.as_raw_str() != text.trim() {
+                            return Err(Violation::new("mismatch/get_many", format!("get_many: the slot of the empty path has raw text {:?}, the document is {:?}", oracle::truncate(root.as_raw_str()), oracle::truncate(text.trim()))));
+                        }
+                    }
+                    None => return Err(Violation::new("mismatch/get_many", "get_many: the slot of the empty path is None".to_string())),
+                }
                 match got.swap_remove(1) {
                     Some(lv) => {
                         let lv = stat(lv);
